@@ -6,6 +6,15 @@ HERE = os.path.dirname(os.path.dirname(os.path.abspath(__file__)))
 ENUM = "bounded exhaustive enumeration of a listed finite input domain, executed on the real code, each case compared with a reference model (small-scope model checking of a sequential library)"
 CHECKS = {
   # id: (category, technique, level text, level note, design ref)
+  "C01": ("exploration", "bounded exhaustive input enumeration, differential over three rendering paths on reference targets",
+          "Every drawable of the listed catalogue (all primitive kinds x sizes up to N x styles S(W) x positions, all vertex triples of small grids, polylines up to 4/5 vertices, images of 7 raw widths x 2 data orders x sub-images, text) is rendered through draw() on a draw_iter-only target inheriting the trait defaults, draw() on a native target and pixels() via draw_iter; the unbounded pixel maps must be equal. Exhaustive up to the listed bounds.",
+          "The harness's native target is the reference for the documented meaning of fill_contiguous/fill_solid/clear; bounded catalogue.", "6/C01"),
+  "C02": ("exploration", "bounded exhaustive input enumeration, containment of every recorded pixel in bounding_box()",
+          "Every drawable of the catalogue plus text over all 292 built-in fonts x decorations x baselines x alignments x line heights is drawn on unbounded recording targets; every pixel must lie in bounding_box(), transparent styles must draw nothing. Exhaustive up to the listed bounds; fonts are covered completely.",
+          "Only containment (not tightness) is asserted; Rectangle::contains is trusted (C16).", "6/C02"),
+  "C07": ("exploration", "bounded exhaustive input enumeration, metamorphic oracle (translate then draw == draw then shift)",
+          "Every (drawable, style, offset) of the listed product: pixel map of x.translate(d) equals the shifted map of x; boxes, points() and contains() shift; translate_mut == translate; polylines also with moved vertices; text next position shifts. Exhaustive up to the listed bounds.",
+          "Bounded catalogue and offsets; objects straddle the origin so offsets cross both axes.", "6/C07"),
   "C05": ("exploration", "bounded exhaustive input enumeration vs. reference (points() sequence == row-major filter of contains())",
           "Every shape of a listed finite domain (all sizes up to N, all equal and a product of unequal corner radii, all non-degenerate vertex triples of small grids, start/sweep angle grids, two positions) is run through the real points()/contains(); the verdict is exhaustive up to those bounds.",
           "Trusts Rectangle::contains/bounding_box arithmetic of the probe (decided separately by C16); contains() is probed on the bounding box grown by 2 plus six far points.", "6/C05"),
